@@ -234,8 +234,21 @@ func crashCmd(out *cq.Out, seed uint64, tier string) {
 		refDir, _ := os.MkdirTemp(out.Dir, "ref")
 		ref := openFSM(refDir + "/db0")
 		var refSnaps [][]*balloon.Snapshot
-		for _, e := range lg {
+		for j, e := range lg {
+			seqBefore := ref.VStore().LastWALSequenceNumber()
 			s, _ := ref.VApply(e.index, e.evs)
+			// "immediately before or after the storage write": the apply must reach the engine as ONE write (one
+			// write-ahead-log record); several records mean there are instants in between at which a crash leaves
+			// part of an insertion on disk
+			records := 0
+			ref.VStore().FetchSnapshot(nopWriteCloser{}, seqBefore, ref.VStore().LastWALSequenceNumber(), func(meta []byte) (bool, error) {
+				records++
+				return false, nil
+			})
+			if records != 1 {
+				out.Violate("C07:model-assumption:apply-is-one-store-write", fmt.Sprintf("applying entry %d (%d events) reached the storage engine as %d separate writes; the model of C07 (Fsm/Fsm.v: one atomic store write per applied entry) no longer describes the code: unless recovery repairs it, a crash between the writes leaves neither the state before nor the state after the insertion", j, len(e.evs), records),
+					map[string]interface{}{"seed": seed, "entries": m, "large_log": big, "entry": j, "events": len(e.evs)})
+			}
 			refSnaps = append(refSnaps, s)
 		}
 		refFP := tablesFP(ref.VStore())
@@ -438,3 +451,8 @@ func crashCmd(out *cq.Out, seed uint64, tier string) {
 		os.RemoveAll(dir)
 	}
 }
+
+type nopWriteCloser struct{}
+
+func (nopWriteCloser) Write(p []byte) (int, error) { return len(p), nil }
+func (nopWriteCloser) Close() error                { return nil }
